@@ -321,8 +321,10 @@ class VmWorld(HistoryWorld):
             return {'op': 'serialize'}
         if r < 0.88:
             return {'op': 'deserialize'}
-        if r < 0.95:
+        if r < 0.92:
             return {'op': 'caller_moves_on', 'seed': rng.getrandbits(16)}
+        if r < 0.97:
+            return {'op': 'caller_edits_in_place'}
         return {'op': 'pop'}
 
     def V(self, ctx, invariant, opkind, klass, msg):
@@ -384,6 +386,48 @@ class VmWorld(HistoryWorld):
         # the caller's objects are dropped; fresh equal ones take their place so that model and library side stay in step
         st.lib = [build_from_model(m) for m in st.model]
         self.op_deserialize(st, op, ctx)
+
+    def op_caller_edits_in_place(self, st, op, ctx):
+        """The caller keeps ITS stack and edits the values in it between two serialisations (appends to its tuples at every depth,
+        changes the integer fields of continuations wherever they are nested - a loop's body, a pushint's next ...): the next
+        serialisation must encode the values as they are NOW."""
+        import copy
+        if not st.lib or has_bad(st.model):
+            return
+        st.model = copy.deepcopy(st.model)
+        edits = [0]
+
+        def cont(c, obj, depth=0):
+            if obj is None or depth > 8:
+                return
+            for key in sorted(c):
+                v = c[key]
+                if isinstance(v, dict) and 't' in v:
+                    cont(v, getattr(obj, key, None), depth + 1)
+                elif key in ('exit_code', 'value', 'count') and isinstance(v, int) and not isinstance(v, bool) and hasattr(obj, key):
+                    nv = 6 if v != 6 else 9
+                    c[key] = nv
+                    setattr(obj, key, nv)
+                    edits[0] += 1
+
+        def walk(m, v, depth=0):
+            if not isinstance(m, tuple) or depth > 6:
+                return
+            if m[0] == 'tuple' and isinstance(v, VmTuple) and len(m[1]) < 200:
+                for mm, vv in zip(m[1], v.list):
+                    walk(mm, vv, depth + 1)
+                m[1].append(11)
+                v.list.append(11)
+                edits[0] += 1
+            elif m[0] == 'cont':
+                cont(m[1], v)
+        for m, v in zip(st.model, st.lib):
+            walk(m, v)
+        if not edits[0]:
+            return
+        ctx.fault('caller-edits-its-values-between-serialisations')
+        st.last = None
+        self.op_serialize(st, op, ctx)
 
     def op_repair(self, st, op, ctx):
         strip_bad(st.lib, st.model)
